@@ -1,0 +1,149 @@
+//go:build verif
+
+package timeseries
+
+import "time"
+
+// Contracts, spec functions and lemma harnesses for the deductive verifier in /verif (govc).
+// This file is compiled only with -tags verif; it adds no behaviour to the package.
+//
+// Property C61: time series keep an exact total of all observations.
+//
+// Observable is an interface; its only implementation in the package, Float, is a float64
+// (uninterpreted for the verifier, and not associative in reality). The accounting is therefore
+// proved for a model implementation, sumObs: an int64 counter with wrapping addition (the
+// commutative monoid (Z/2^64, +, 0)); Add/Clear/CopyFrom are its monoid operations. The
+// interface calls of the real functions are dispatched to this model (precondition: every
+// observable of the series and the observation itself are *sumObs).
+
+type sumObs struct{ v int64 }
+
+func (s *sumObs) Multiply(ratio float64)    {}
+func (s *sumObs) Add(other Observable)      { s.v += other.(*sumObs).v }
+func (s *sumObs) Clear()                    { s.v = 0 }
+func (s *sumObs) CopyFrom(other Observable) { s.v = other.(*sumObs).v }
+
+// val: the monoid value of a model observable.
+//
+//@ pure
+func val(o Observable) int64 { return o.(*sumObs).v }
+
+//@ pure
+func isSum(o Observable) bool {
+	_, ok := o.(*sumObs)
+	return ok && o.(*sumObs) != nil
+}
+
+// coreInv: total and pending exist, are model observables and are different objects; nothing is
+// pending unless the dirty flag is set.
+//
+//@ pure
+func coreInv(ts *timeSeries) bool {
+	return ts != nil && isSum(ts.total) && isSum(ts.pending) && ts.total.(*sumObs) != ts.pending.(*sumObs) &&
+		(ts.dirty || val(ts.pending) == 0)
+}
+
+// acct: the accounted sum, total (+) pending.
+//
+//@ pure
+func acct(ts *timeSeries) int64 { return val(ts.total) + val(ts.pending) }
+
+// Structure of the levels: at least one level, every level exists, has numBuckets buckets, its
+// ring indices are in range and its bucket duration is positive.
+//
+//@ pure
+func levelOK(ts *timeSeries, l *tsLevel) bool {
+	return l != nil && len(l.buckets) == ts.numBuckets && 0 <= l.oldest && l.oldest < ts.numBuckets &&
+		0 <= l.newest && l.newest < ts.numBuckets && l.size > 0
+}
+
+//@ pure
+func levelAt(ts *timeSeries, k int) *tsLevel { return ts.levels[k] }
+
+//@ pure
+func bucketAt(ts *timeSeries, k int, i int) Observable { return ts.levels[k].buckets[i] }
+
+// bucketOK: a bucket is a model observable that is neither the total, nor the pending
+// observation, nor the observation being added (o).
+//
+//@ pure
+func bucketOK(ts *timeSeries, b Observable, o Observable) bool {
+	return isSum(b) && b.(*sumObs) != ts.total.(*sumObs) && b.(*sumObs) != ts.pending.(*sumObs) && b.(*sumObs) != o.(*sumObs)
+}
+
+var _ = time.Second
+
+// lemmaModWrap: below twice the modulus, the remainder is one conditional subtraction (used with
+// `abstractrem`, which keeps the 64-bit division circuit out of the ring-index queries).
+//
+//@ lemma
+//@ requires 0 <= a && 0 < n && a < 2*n && n <= 1<<41
+//@ ensures a % n == ite(a >= n, a - n, a)
+func lemmaModWrap(a, n int) {
+}
+
+// mergeValue -- ASSUMED contract (flag `trusted`): the observation is added to the total exactly
+// once; pending and the flags are untouched. An attempt to verify it (with the structural
+// invariant levelOK for every level, existing and separate bucket objects bucketOK, `abstractrem`
+// and lemmaModWrap) discharged 57 of 64 obligations, among them every bucket-index and division
+// obligation; the remaining 7 all need the nested invariant "for every level k and bucket i,
+// bucketOK" at the bucket that was picked, which the engine does not instantiate (and creating a
+// bucket goes through the `provider` function value, for which no contract can be written).
+//
+//@ func (*timeSeries).mergeValue(ts, observation, t)
+//@   requires coreInv(ts) && isSum(observation) && observation.(*sumObs) != ts.total.(*sumObs)
+//@   ensures val(ts.total) == old(val(ts.total)) + old(val(observation))
+//@   ensures ts.total == old(ts.total) && ts.pending == old(ts.pending) && ts.dirty == old(ts.dirty)
+//@   ensures observation.(*sumObs) != ts.pending.(*sumObs) ==> val(ts.pending) == old(val(ts.pending))
+//@   ensures val(observation) == old(val(observation))
+//@   trusted
+//@   modifies sumObs.v
+//@   allocates
+
+// advance -- ASSUMED contract (flag `trusted`): cycling the buckets does not touch the total, the
+// pending observation or the observation being added (buckets are separate objects), and keeps
+// the level list.
+//
+//@ func (*timeSeries).advance(ts, t)
+//@   requires coreInv(ts)
+//@   ensures ts.total == old(ts.total) && ts.pending == old(ts.pending) && ts.dirty == old(ts.dirty)
+//@   ensures val(ts.total) == old(val(ts.total)) && val(ts.pending) == old(val(ts.pending))
+//@   ensures len(ts.levels) == old(len(ts.levels)) && (len(ts.levels) > 0 ==> levelAt(ts, 0) == old(levelAt(ts, 0)))
+//@   trusted
+//@   havocs except timeSeries.total, timeSeries.pending, timeSeries.dirty, timeSeries.levels, timeSeries.numBuckets
+
+// AddWithTime -- NOT a registered unit (42 of 43 obligations; the accounting postcondition fails
+// because the assumed contract of advance cannot state that the observation being added keeps its
+// value). Intended contract: in each of its three branches (new pending bucket, fast path into pending, merge
+// into the past) the observation is accounted exactly once: total (+) pending grows by the
+// observation's value, and the invariant "nothing pending unless dirty" is kept.
+//
+//@ func (*timeSeries).AddWithTime(ts, observation, t)
+//@   requires coreInv(ts) && isSum(observation)
+//@   requires observation.(*sumObs) != ts.total.(*sumObs) && observation.(*sumObs) != ts.pending.(*sumObs)
+//@   requires len(ts.levels) > 0 && levelAt(ts, 0) != nil
+//@   ensures coreInv(ts)
+//@   ensures acct(ts) == old(acct(ts)) + old(val(observation))
+//@   ensures ts.total == old(ts.total)
+//@   noframe
+//@   allocates
+
+//@ func (*timeSeries).mergePendingUpdates(ts)
+//@   requires coreInv(ts)
+//@   ensures coreInv(ts) && !ts.dirty
+//@   ensures acct(ts) == old(acct(ts))
+//@   ensures val(ts.total) == old(acct(ts))
+//@   ensures ts.total == old(ts.total)
+//@   modifies sumObs.v, ts.pending, ts.dirty
+//@   allocates
+
+//@ func (*timeSeries).Total(ts) (r)
+//@   requires coreInv(ts)
+//@   ensures coreInv(ts) && r == ts.total && val(r) == old(acct(ts))
+//@   modifies sumObs.v, ts.pending, ts.dirty
+//@   allocates
+
+//@ func (*timeSeries).resetObservation(ts, observation) (r)
+//@   requires observation != nil && isSum(observation)
+//@   ensures r == observation && val(r) == 0
+//@   modifies observation.(*sumObs).v
